@@ -92,6 +92,13 @@ def run(c, chk):
     lex = c.lex
     ambient_errno(c, chk)
     refused_include_leaves_nothing(c, chk)
+    # R8.11: the position a diagnostic names restarts with every parse
+    if not isinstance(chk, report.SubCheck):
+        from . import c06 as _c06
+        chk.rule('R8.11', 'every parse starts counting lines at 1 and hands file name and line over consistently (rule R6.5 of C06): the line a diagnostic names does not depend on earlier parses')
+        sub6 = report.SubCheck(chk, 'R8.11', 'C06', only=('R6.5',))
+        _c06.run(c, sub6)
+        sub6.done('position bookkeeping')
     # R8.10: what "+=" does depends on the text, not on flags a refused assignment of an earlier parse left behind
     from . import c01 as _c01
     from .. import parsermodel as _pm
